@@ -26,6 +26,7 @@ TokText(id) == CASE id = "s.pn" -> "ex:a"           [] id = "s.abs" -> "<http://
                  [] id = "p.type" -> "rdf:type"
                  [] id = "o.pn" -> "ex:b"           [] id = "o.abs" -> "<http://x.org/o#f>" [] id = "o.rel" -> "<r2>"
                  [] id = "o.bn" -> "_:b2"           [] id = "o.int" -> "57"
+                 [] id = "o.pint" -> "+8"            [] id = "o.nint" -> "-30"       \* INTEGER ::= [+-]? [0-9]+
                  [] id = "o.str" -> "\"x y\""       [] id = "o.xsd" -> "\"5\"^^xsd:int"
                  [] id = "o.dti" -> "\"v\"^^<http://x.org/dt>"  [] id = "o.dtp" -> "\"v\"^^ex:dt"
                  [] id = "o.dtg" -> "\"4\"^^geo:deg"      \* a label sheXer has a built-in namespace for, bound to another one by the document
@@ -44,6 +45,7 @@ TokTerm(id) == CASE id = "s.pn" -> <<"IRI", EXNS \o "a">>   [] id = "s.abs" -> <
                  [] id = "o.pn" -> <<"IRI", EXNS \o "b">>    [] id = "o.abs" -> <<"IRI", "http://x.org/o#f">>
                  [] id = "o.rel" -> <<"IRI", BASE \o "r2">>  [] id = "o.bn" -> <<"BNode", "_:b2">>
                  [] id = "o.int" -> <<XSDNS \o "integer", "">>
+                 [] id = "o.pint" -> <<XSDNS \o "integer", "">>  [] id = "o.nint" -> <<XSDNS \o "integer", "">>
                  [] id = "o.str" -> <<XSD_STRING, "">>       [] id = "o.xsd" -> <<XSDNS \o "int", "">>
                  [] id = "o.dti" -> <<"http://x.org/dt", "">> [] id = "o.dtp" -> <<EXNS \o "dt", "">>
                  [] id = "o.dtg" -> <<"http://www.w3.org/2003/01/geo/wgs84_pos#deg", "">>
@@ -55,7 +57,7 @@ TokTerm(id) == CASE id = "s.pn" -> <<"IRI", EXNS \o "a">>   [] id = "s.abs" -> <
                  [] id = "o.urn" -> <<"IRI", BASE \o "urn:x:1">>      \* documented divergence: only http(s) IRIs count as absolute
 SubjToks == {"s.pn", "s.abs", "s.rel", "s.bn", "s.https", "s.bs"}
 PredToks == {"p.pn", "p.a", "p.abs", "p.type", "p.bs"}
-ObjToks == {"o.pn", "o.abs", "o.rel", "o.bn", "o.int", "o.str", "o.xsd", "o.dti", "o.dtp", "o.dtg", "o.bs", "o.lang", "o.spec", "o.esc", "o.cls", "o.https"}
+ObjToks == {"o.pn", "o.abs", "o.rel", "o.bn", "o.int", "o.pint", "o.nint", "o.str", "o.xsd", "o.dti", "o.dtp", "o.dtg", "o.bs", "o.lang", "o.spec", "o.esc", "o.cls", "o.https"}
 Punct == {";", ",", "."}
 
 \* abstract triples of a token sequence S P O (, O)* (; P O (, O)*)* . ...   (what a standard parser yields)
@@ -161,7 +163,9 @@ NextTok(s, start0, base) ==
 \* _parse_elem: prefixes as a function prefix -> namespace
 PrefixOf(tok) == LET c == FindCh(tok, ":", 0) IN IF c = -1 THEN "" ELSE JoinChars(Slice(tok, 0, c))
 AfterColon(tok) == Slice(tok, FindCh(tok, ":", 0) + 1, Len(tok))
-IsNumber(tok) == tok # <<>> /\ \A i \in 1..Len(tok) : IsNumeric(tok[i])
+\* float(tok) succeeds (on the vocabulary: an optional sign and digits)
+IsNumber(tok) == LET d == IF tok # <<>> /\ tok[1] \in {"+", "-"} THEN Tail(tok) ELSE tok
+                 IN d # <<>> /\ \A i \in 1..Len(d) : IsNumeric(d[i])
 ExpandDatatype(tok, prefixes) ==     \* "lex"^^pre:local -> "lex"^^<ns local>
   LET q == ClosingQuotes(tok, 1)
       suf == Slice(tok, q + 1, Len(tok))
